@@ -12,7 +12,7 @@ import hightime as ht
 from typing_extensions import Self, TypeAlias
 
 from nitypes._arguments import arg_to_int
-from nitypes._exceptions import int_out_of_range, invalid_arg_type
+from nitypes._exceptions import format_number, int_out_of_range, invalid_arg_type
 
 if TYPE_CHECKING:
     # Import from the public package so the docs don't reference private submodules.
@@ -154,7 +154,7 @@ class TimeDelta:
         if not (_INT128_MIN <= ticks <= _INT128_MAX):
             raise OverflowError(
                 "The seconds value is out of range.\n\n"
-                f"Requested value: {seconds}\n"
+                f"Requested value: {format_number(seconds)}\n"
                 f"Minimum value: {self.__class__.min.precision_total_seconds()}\n"
                 f"Maximum value: {self.__class__.max.precision_total_seconds()}"
             )
